@@ -221,4 +221,12 @@ HARNESSES = [
             bounds={"workers": "2 Worker.run() on one in-memory queue, second one starting after any real delay in [0, 2 ms]", "actor durations": "(0, 2 ms] each, symbolic"},
             functions=["worker.py:Worker.run"], covers=["workers-ran"]),
 ]
+from harness.c03 import h03_redis_death  # noqa: E402
+
+HARNESSES.append(
+    Harness(name="H14-redis-timeout-redelivery", scenario=h03_redis_death, workers=16, budget_s=900,
+            bounds={"holder": "a Redis consumer that took the message (or died at any of 0..7 round trips of the take)", "execution timeout": "any µs in [1 s, 3 d]",
+                    "another process connects (maintenance) after": "any µs in [0, 4 d]"},
+            functions=["connections/redis/message_broker.py:RedisMessageBroker.maintenance"], covers=["died-holding-the-message", "redelivered", "still-in-flight"],
+            stubs=["fake Redis server"]))
 ASSUMPTIONS = ["RabbitMQ exclusivity is the server's (not modelled)"]
